@@ -639,10 +639,21 @@ func constListElems(v ssa.Value) ([]string, bool) {
 	if sl, ok := base.(*ssa.Slice); ok {
 		base = sl.X
 	}
+	// a package-level list (`var copied = []string{constants.A, …}`) that only the package initialiser writes
+	if ld2, isLd := base.(*ssa.UnOp); isLd {
+		if g, isG := ld2.X.(*ssa.Global); isG {
+			return constGlobalList(g)
+		}
+	}
 	al, ok := base.(*ssa.Alloc)
 	if !ok {
 		return nil, false
 	}
+	return constArrayElems(al)
+}
+
+// constArrayElems: the constant strings stored into the elements of an array cell; false if any element is not constant.
+func constArrayElems(al *ssa.Alloc) ([]string, bool) {
 	var out []string
 	for _, ref := range *al.Referrers() {
 		ea, ok := ref.(*ssa.IndexAddr)
@@ -1416,4 +1427,55 @@ func nonNegativeInduction(p *ssa.Phi) bool {
 		}
 	}
 	return len(p.Edges) > 0
+}
+
+// constGlobalList: the elements of a package-level []string that is assigned once, in the package initialiser, from a
+// literal of constants, and is neither reassigned nor written element-wise anywhere in the repo.
+func constGlobalList(g *ssa.Global) ([]string, bool) {
+	if theCtx == nil || g.Pkg == nil {
+		return nil, false
+	}
+	initFn := g.Pkg.Func("init")
+	if initFn == nil {
+		return nil, false
+	}
+	var out []string
+	okInit := false
+	eachInstr(initFn, func(in ssa.Instruction) {
+		st, ok := in.(*ssa.Store)
+		if !ok || st.Addr != ssa.Value(g) {
+			return
+		}
+		if sl, ok := st.Val.(*ssa.Slice); ok {
+			if al, ok := sl.X.(*ssa.Alloc); ok {
+				out, okInit = constArrayElems(al)
+			}
+		}
+	})
+	if !okInit {
+		return nil, false
+	}
+	for _, f := range theCtx.Funcs {
+		if f.Blocks == nil || f == initFn {
+			continue
+		}
+		bad := false
+		eachInstr(f, func(in ssa.Instruction) {
+			switch x := in.(type) {
+			case *ssa.Store:
+				if x.Addr == ssa.Value(g) {
+					bad = true
+				}
+				if ia, ok := x.Addr.(*ssa.IndexAddr); ok {
+					if ld, ok := ia.X.(*ssa.UnOp); ok && ld.X == ssa.Value(g) {
+						bad = true
+					}
+				}
+			}
+		})
+		if bad {
+			return nil, false
+		}
+	}
+	return out, len(out) > 0
 }
